@@ -31,12 +31,38 @@
 //! Put+Delete, CompareAndSwap); every sequence of length <= 5/6 over {prepare, commit, abort} x 2 tx;
 //! after every call the whole store (all keys, whole `TensorData`), the prepared set and the locks are
 //! compared with the model (only a commit of a prepared tx changes the store, by exactly its writes).
+//!
+//! Non-participant votes (`parts`): the transaction is begun over a STRICT subset of the shards (e.g.
+//! participants {0,1} of 3 shards) and the alphabet still holds vote(tx, shard, *) for EVERY shard.  Contract
+//! (C03.vote.record / C03.commit.guard): Prepared is reached / commit returns Ok only if every PARTICIPANT
+//! voted Yes; a vote of a non-participant never counts towards "all voted" and never replaces a
+//! participant's vote.  How the stranger's vote itself is treated is left to the implementation; the model
+//! offers the three readings {rejected with Err, silently ignored (Ok(None), nothing changes), recorded in
+//! `votes` but not counted (Ok(None))} and follows the one the coordinator shows.  A recorded non-Yes vote
+//! of a stranger MAY veto (the last participant Yes then yields Aborting instead of Prepared - aborting is
+//! always safe); it may never help to reach Prepared.
+//!
+//! WAL fault injection (C03.decision.durable_consistent, `dom: "wal"`): the coordinator runs on a real
+//! `TxWal` with `auto_rotate = false` and a byte budget (`max_size_bytes`).  Script: begin over all shards,
+//! `votes` real Yes votes, then commit (votes = all) or abort (any number of votes).  The script is first
+//! run with an unlimited budget and the record boundaries of the file are measured; it is then re-run with
+//! the budget set to the boundary before the k-th append of the final call, so that this append and every
+//! later one fails (k = 0: no fault).  Transaction ids are random, so the re-run is validated (the file must
+//! hold exactly the intended records) and repeated otherwise.  After the final call: the decision readable
+//! from the WAL (PhaseChange->Committing / TxComplete{Committed} = COMMIT, PhaseChange->Aborting /
+//! TxComplete{Aborted} = ABORT; never both) must agree with the live coordinator: a call that returned Ok
+//! must have its decision in the WAL; COMMIT => the (expired) tx is neither listed nor queued nor changed by
+//! cleanup_timeouts and abort(tx) is Err - also after `truncate_wal()` has given the WAL its budget back;
+//! ABORT => commit(tx) is Err (before and after truncate_wal, and after the outstanding Yes votes arrived late).  A second coordinator restarted from a copy
+//! of that WAL (`recover_from_wal`, and `TxRecoveryState`) must be in the same class.
 use crate::fw::{Report, Tier};
 use serde_json::{json, Value};
 use std::collections::{BTreeMap, BTreeSet};
+use std::path::Path;
+use tensor_chain::raft_wal::WalConfig;
 use tensor_chain::{
     ConsensusConfig, ConsensusManager, DistributedTxConfig, DistributedTxCoordinator, PrepareRequest, PrepareVote,
-    Transaction, TxParticipant, TxPhase,
+    Transaction, TxOutcome, TxParticipant, TxPhase, TxRecoveryState, TxWal, TxWalEntry,
 };
 use tensor_store::{ScalarValue, SparseVector, TensorData, TensorStore, TensorValue};
 
@@ -45,6 +71,7 @@ const O_COMMIT: &str = "C03.commit.guard";
 const O_ONCE: &str = "C03.abort.once";
 const O_TIMEOUT: &str = "C03.timeout.broadcast";
 const O_PART: &str = "C03.part.apply_iff_commit";
+const O_DURABLE: &str = "C03.decision.durable_consistent";
 
 type Checks = Vec<(&'static str, bool, String)>;
 
@@ -86,9 +113,11 @@ impl Act {
 }
 
 #[derive(Clone, Copy, Debug)]
-struct Cfg { ntx: usize, nsh: usize, overlap: bool, committing: bool }
+struct Cfg { ntx: usize, nsh: usize, overlap: bool, committing: bool, /** bit s set = shard s is a participant; 0 = every shard */ parts: u8 }
 
 impl Cfg {
+    fn is_part(&self, s: usize) -> bool { self.parts == 0 || (self.parts >> s) & 1 == 1 }
+    fn parts_vec(&self) -> Vec<usize> { (0..self.nsh).filter(|s| self.is_part(*s)).collect() }
     fn key(&self, i: usize, s: usize) -> String {
         if self.overlap && s == 0 { "shared_s0".to_string() } else { format!("t{i}s{s}") }
     }
@@ -109,9 +138,11 @@ impl Cfg {
         a
     }
     fn json(&self, seq: &[Act]) -> Value {
-        json!({"dom": "coord", "ntx": self.ntx, "nsh": self.nsh, "overlap": self.overlap,
+        let mut j = json!({"dom": "coord", "ntx": self.ntx, "nsh": self.nsh, "overlap": self.overlap,
                "pre": if self.committing { "committing" } else { "begin" },
-               "seq": seq.iter().map(Act::enc).collect::<Vec<_>>()})
+               "seq": seq.iter().map(Act::enc).collect::<Vec<_>>()});
+        if self.parts != 0 { j["parts"] = json!(self.parts_vec()); }
+        j
     }
 }
 
@@ -145,7 +176,7 @@ fn new_coord() -> DistributedTxCoordinator {
     DistributedTxCoordinator::new(ConsensusManager::new(ConsensusConfig::default()), cfg)
 }
 
-fn participants(cfg: &Cfg) -> Vec<usize> { (0..cfg.nsh).collect() }
+fn participants(cfg: &Cfg) -> Vec<usize> { cfg.parts_vec() }
 
 /// The Yes message of (tx i, shard s): first delivery runs the real `handle_prepare`, later ones repeat it.
 fn yes_vote(b: &mut Built, cfg: &Cfg, i: usize, s: usize) -> PrepareVote {
@@ -179,7 +210,7 @@ fn build(cfg: &Cfg) -> Built {
         if cfg.committing {
             // placeholder ids so that yes_vote can index
             let mut last = None;
-            for s in 0..cfg.nsh {
+            for s in participants(cfg) {
                 let v = yes_vote(&mut b, cfg, 0, s);
                 assert!(matches!(v, PrepareVote::Yes { .. }), "harness: prepare of a free key must vote yes");
                 last = Some(b.coord.record_vote(b.ids[0], s, v));
@@ -273,8 +304,9 @@ fn model(g: &mut Ghost, cfg: &Cfg, act: Act, delivered: Option<V>) -> (Ret, Vec<
             // unknown (gone) tx, wrong phase, duplicate shard: rejected, nothing changes
             if t.phase != GP::Preparing || t.votes.contains_key(&s) { return (Ret::Vote(Err(())), vec![]); }
             t.votes.insert(s, v);
-            if t.votes.len() < cfg.nsh { return (Ret::Vote(Ok(None)), vec![]); }
-            if t.votes.values().all(|v| *v == V::Yes) {
+            let parts = cfg.parts_vec();
+            if !parts.iter().all(|p| t.votes.contains_key(p)) { return (Ret::Vote(Ok(None)), vec![]); }
+            if parts.iter().all(|p| t.votes.get(p) == Some(&V::Yes)) {
                 // keys of different shards are disjoint and the delta embeddings orthogonal in this domain
                 t.phase = GP::Prepared;
                 (Ret::Vote(Ok(Some(TxPhase::Prepared))), vec![])
@@ -327,6 +359,41 @@ fn model(g: &mut Ghost, cfg: &Cfg, act: Act, delivered: Option<V>) -> (Ret, Vec<
     }
 }
 
+/// One permitted outcome of a call: ghost after the call, return value, transactions queued for abort broadcast.
+struct Alt { ghost: Ghost, ret: Ret, queue: Vec<usize> }
+
+/// The contract as the SET of permitted outcomes.  Exactly one, except around votes of non-participants.
+fn model_alts(g: &Ghost, cfg: &Cfg, act: Act, delivered: Option<V>) -> Vec<Alt> {
+    let strict = || { let mut g1 = g.clone(); let (ret, queue) = model(&mut g1, cfg, act, delivered); Alt { ghost: g1, ret, queue } };
+    if let Act::Vote(i, s, _) = act {
+        let v = delivered.expect("vote kind");
+        let t = &g.txs[i];
+        let open = t.phase == GP::Preparing && !t.votes.contains_key(&s);
+        if open && !cfg.is_part(s) {
+            // a stranger's vote: recorded-but-not-counted | rejected | silently ignored; never a phase change
+            let mut g2 = g.clone();
+            g2.txs[i].votes.insert(s, v);
+            return vec![Alt { ghost: g2, ret: Ret::Vote(Ok(None)), queue: vec![] },
+                        Alt { ghost: g.clone(), ret: Ret::Vote(Err(())), queue: vec![] },
+                        Alt { ghost: g.clone(), ret: Ret::Vote(Ok(None)), queue: vec![] }];
+        }
+        if open {
+            let first = strict();
+            let veto = t.votes.iter().any(|(sh, k)| !cfg.is_part(*sh) && *k != V::Yes);
+            if veto && first.ret == Ret::Vote(Ok(Some(TxPhase::Prepared))) {
+                // every participant voted Yes, a recorded stranger did not: aborting instead is permitted (safe)
+                let mut g2 = g.clone();
+                g2.txs[i].votes.insert(s, v);
+                g2.txs[i].phase = GP::Aborting;
+                g2.txs[i].decision = Some(false);
+                return vec![first, Alt { ghost: g2, ret: Ret::Vote(Ok(Some(TxPhase::Aborting))), queue: vec![i] }];
+            }
+            return vec![first];
+        }
+    }
+    vec![strict()]
+}
+
 /// Execute one call on the real coordinator and advance the ghost; with `check`, evaluate the contract.
 fn step(b: &mut Built, cfg: &Cfg, act: Act, check: bool) -> (Checks, bool) {
     // materialise the vote message first (a Yes takes the key lock through handle_prepare)
@@ -339,8 +406,7 @@ fn step(b: &mut Built, cfg: &Cfg, act: Act, check: bool) -> (Checks, bool) {
     let delivered = msg.as_ref().map(kind);
     let pre_ghost = b.ghost.clone();
     let pre_view = if check { Some(observe(b, cfg)) } else { None };
-    let mut post_ghost = b.ghost.clone();
-    let (exp_ret, exp_queue) = model(&mut post_ghost, cfg, act, delivered);
+    let alts = model_alts(&b.ghost, cfg, act, delivered);
 
     let real_ret = match act {
         Act::Vote(i, s, _) => Ret::Vote(b.coord.record_vote(b.ids[i], s, msg.clone().expect("msg")).map_err(|_| ())),
@@ -355,31 +421,41 @@ fn step(b: &mut Built, cfg: &Cfg, act: Act, check: bool) -> (Checks, bool) {
         },
     };
     let queue = b.coord.take_pending_aborts();
-    b.ghost = post_ghost;
-    if !check { return (vec![], false); }
+    if !check && alts.len() == 1 {
+        b.ghost = alts.into_iter().next().expect("one outcome").ghost;
+        return (vec![], false);
+    }
 
     let post_view = observe(b, cfg);
-    let exp_view = expect_view(&b.ghost, &b.ids, cfg);
-    let pre_ok = pre_view.as_ref() == Some(&expect_view(&pre_ghost, &b.ids, cfg));
-    let ret_ok = real_ret == exp_ret;
-    let view_ok = post_view == exp_view;
     // abort queue: (tx index, participants) of every entry produced by this call
     let q: Vec<(Option<usize>, Vec<usize>)> = queue.iter().map(|(id, _, sh)| (b.ids.iter().position(|x| x == id), sh.clone())).collect();
     let mut q_ids: Vec<Option<usize>> = q.iter().map(|e| e.0).collect();
     q_ids.sort();
-    let mut want: Vec<Option<usize>> = exp_queue.iter().map(|i| Some(*i)).collect();
-    want.sort();
     let parts_ok = q.iter().all(|(_, sh)| *sh == participants(cfg));
-    let queue_ok = match act {
-        // abort(): the contract only demands that no *other* transaction is queued
-        Act::Abort(i) => q_ids.iter().all(|e| *e == Some(i)) && parts_ok,
-        _ => q_ids == want && parts_ok,
+    let queue_ok = |exp_queue: &[usize]| {
+        let mut want: Vec<Option<usize>> = exp_queue.iter().map(|i| Some(*i)).collect();
+        want.sort();
+        match act {
+            // abort(): the contract only demands that no *other* transaction is queued
+            Act::Abort(i) => q_ids.iter().all(|e| *e == Some(i)) && parts_ok,
+            _ => q_ids == want && parts_ok,
+        }
     };
+    // the permitted outcome the coordinator shows (the first one if it shows none of them)
+    let n_alts = alts.len();
+    let hit = alts.iter().position(|a| real_ret == a.ret && post_view == expect_view(&a.ghost, &b.ids, cfg) && queue_ok(&a.queue));
+    let Alt { ghost: post_ghost, ret: exp_ret, queue: exp_queue } = alts.into_iter().nth(hit.unwrap_or(0)).expect("outcome");
+    b.ghost = post_ghost;
+    if !check { return (vec![], false); }
+
+    let exp_view = expect_view(&b.ghost, &b.ids, cfg);
+    let pre_ok = pre_view.as_ref() == Some(&expect_view(&pre_ghost, &b.ids, cfg));
     let detail = format!(
-        "call {} on ghost {:?}: returned {:?}, contract {:?}; view after {:?}, contract {:?}; abort queue {:?}, contract {:?}{}",
+        "call {} on ghost {:?}: returned {:?}, contract {:?}; view after {:?}, contract {:?}; abort queue {:?}, contract {:?}{}{}",
         act.enc(), pre_ghost.txs, real_ret, exp_ret, post_view, exp_view, q, exp_queue,
+        if n_alts > 1 { format!(" [{n_alts} outcomes are permitted here (non-participant vote); the first is shown]") } else { String::new() },
         if pre_ok { "" } else { " [pre-state already differed from the ghost]" });
-    let all_ok = pre_ok && ret_ok && view_ok && queue_ok;
+    let all_ok = pre_ok && hit.is_some();
     let decided_commit = |i: usize| pre_ghost.txs[i].decision == Some(true);
     let mut out: Checks = vec![];
     let nontrivial;
@@ -613,45 +689,267 @@ fn run_part(rep: &mut Report, maxlen: usize) -> u64 {
 }
 
 // ------------------------------------------------------------------------------------------------
+// WAL fault domain (C03.decision.durable_consistent)
+// ------------------------------------------------------------------------------------------------
+
+/// begin over `nsh` shards, `votes` Yes votes (shards 0..votes), then commit / abort; the k-th WAL append of
+/// that final call (and every later append) fails; k = 0: no fault
+#[derive(Clone, Copy, Debug)]
+struct WalCase { nsh: usize, votes: usize, commit: bool, k: usize }
+
+impl WalCase {
+    fn json(&self) -> Value {
+        json!({"dom": "wal", "nsh": self.nsh, "votes": self.votes, "final": if self.commit { "commit" } else { "abort" }, "k": self.k})
+    }
+}
+
+struct WalRun { coord: DistributedTxCoordinator, id: u64, /** end offset of every whole record in the file */ ends: Vec<u64>, /** records before the final call */ pre: usize, ret_ok: bool, ret_txt: String }
+
+/// end offsets of the whole records `[len u32][crc u32][payload]` of a TxWal file
+fn record_ends(path: &Path) -> Vec<u64> {
+    let b = std::fs::read(path).unwrap_or_default();
+    let (mut ends, mut p) = (vec![], 0usize);
+    while p + 8 <= b.len() {
+        let len = u32::from_le_bytes([b[p], b[p + 1], b[p + 2], b[p + 3]]) as usize;
+        if p + 8 + len > b.len() { break; }
+        p += 8 + len;
+        ends.push(p as u64);
+    }
+    ends
+}
+
+/// Run the script on a fresh coordinator over a fresh WAL file with the given byte budget.  Err = the prefix
+/// (begin, votes) did not run as scripted (with a budget: the record sizes drifted; the caller repeats).
+fn wal_run(dir: &Path, c: &WalCase, budget: Option<u64>) -> Result<WalRun, String> {
+    let path = dir.join("tx.wal");
+    let _ = std::fs::remove_file(&path);
+    let wcfg = WalConfig { max_size_bytes: budget.unwrap_or(1 << 40), auto_rotate: false, pre_check_space: false, ..WalConfig::default() };
+    let wal = TxWal::open_with_config(&path, wcfg).map_err(|e| format!("open WAL: {e}"))?;
+    let coord = new_coord().with_wal(wal);
+    let shards: Vec<usize> = (0..c.nsh).collect();
+    let tx = coord.begin(&"coord".to_string(), &shards).map_err(|e| format!("begin: {e}"))?;
+    let id = tx.tx_id;
+    for s in 0..c.votes {
+        let mut emb = vec![0.0f32; c.nsh];
+        emb[s] = 1.0;
+        let req = PrepareRequest { tx_id: id, coordinator: "coord".to_string(), operations: vec![Transaction::Put { key: format!("w{s}"), data: vec![s as u8] }],
+                                   delta_embedding: SparseVector::from_dense(&emb), timeout_ms: 0 };
+        let v = coord.handle_prepare(&req);
+        if !matches!(v, PrepareVote::Yes { .. }) { return Err(format!("prepare of a free key voted {v:?}")); }
+        let r = coord.record_vote(id, s, v).map_err(|e| format!("record_vote: {e}"))?;
+        let want = if s + 1 == c.nsh { Some(TxPhase::Prepared) } else { None };
+        if r != want { return Err(format!("record_vote({s}) = {r:?}, scripted {want:?}")); }
+    }
+    let t = coord.get(id).ok_or("tx vanished in the prefix")?;
+    if t.votes.len() != c.votes { return Err(format!("{} votes recorded, scripted {}", t.votes.len(), c.votes)); }
+    let pre = record_ends(&path).len();
+    if pre != 1 + c.votes + usize::from(c.votes == c.nsh) { return Err(format!("{pre} WAL records after the prefix")); }
+    let r = if c.commit { coord.commit(id) } else { coord.abort(id, "requested") };
+    let ret_txt = match &r { Ok(()) => "Ok".to_string(), Err(e) => format!("Err({e})") };
+    Ok(WalRun { coord, id, ends: record_ends(&path), pre, ret_ok: r.is_ok(), ret_txt })
+}
+
+/// number of WAL appends of the final call in a fault-free run
+fn wal_final_appends(dir: &Path, c: &WalCase) -> Result<usize, String> {
+    let m = wal_run(dir, &WalCase { k: 0, ..*c }, None)?;
+    Ok(m.ends.len() - m.pre)
+}
+
+/// Ok((nontrivial, verdict)); Err = the case could not be set up (harness)
+fn wal_case(dir: &Path, c: &WalCase) -> Result<(bool, Result<String, String>), String> {
+    let mut run = None;
+    for _attempt in 0..64 {
+        let m = wal_run(dir, c, None).map_err(|e| format!("harness: fault-free run: {e}"))?;
+        if c.k == 0 { run = Some(m); break; }
+        let n_final = m.ends.len() - m.pre;
+        if c.k > n_final { return Ok((false, Ok(format!("the final call appends only {n_final} record(s); k = {} is not realisable", c.k)))); }
+        let (pre, budget) = (m.pre, m.ends[m.pre + c.k - 2]);
+        drop(m);
+        match wal_run(dir, c, Some(budget)) {
+            Ok(r) if r.pre == pre && r.ends.len() == pre + c.k - 1 => { run = Some(r); break; },
+            _ => continue, // random ids changed a record size: measure again
+        }
+    }
+    let run = run.ok_or("harness: could not place the WAL fault at the intended record")?;
+    let (coord, id) = (&run.coord, run.id);
+    let path = dir.join("tx.wal");
+
+    // what the WAL says (read from a copy, the live coordinator keeps its own handle)
+    let copy = dir.join("tx_copy.wal");
+    std::fs::copy(&path, &copy).map_err(|e| format!("harness: copy WAL: {e}"))?;
+    let entries = TxWal::open(&copy).and_then(|w| w.replay()).map_err(|e| format!("harness: replay WAL: {e}"))?;
+    let completed = |o: TxOutcome| entries.iter().any(|e| matches!(e, TxWalEntry::TxComplete { tx_id, outcome } if *tx_id == id && *outcome == o));
+    let moved_to = |p: TxPhase| entries.iter().any(|e| matches!(e, TxWalEntry::PhaseChange { tx_id, to, .. } if *tx_id == id && *to == p));
+    let wal_commit = moved_to(TxPhase::Committing) || completed(TxOutcome::Committed);
+    let wal_abort = moved_to(TxPhase::Aborting) || completed(TxOutcome::Aborted);
+    let mut bad: Vec<String> = vec![];
+    if wal_commit && wal_abort { bad.push("the WAL holds BOTH a commit and an abort decision".into()); }
+    if run.ret_ok && c.commit && !wal_commit { bad.push("commit returned Ok but no commit decision is in the WAL".into()); }
+    if run.ret_ok && !c.commit && !wal_abort { bad.push("abort returned Ok but no abort decision is in the WAL".into()); }
+
+    // the live coordinator (the tx is expired: timeout 0)
+    while let Some(t) = coord.get(id) { if t.is_timed_out() { break; } std::hint::spin_loop(); }
+    let phase = |co: &DistributedTxCoordinator| co.get(id).map(|t| t.phase);
+    let before = phase(coord);
+    if wal_commit {
+        let swept = coord.cleanup_timeouts();
+        let queued = coord.take_pending_aborts();
+        if swept.contains(&id) { bad.push("WAL: COMMIT decided, but cleanup_timeouts() lists the tx as timed out".into()); }
+        if queued.iter().any(|e| e.0 == id) { bad.push("WAL: COMMIT decided, but the tx is queued for abort broadcast".into()); }
+        if phase(coord) != before { bad.push(format!("WAL: COMMIT decided, but cleanup_timeouts() changed the tx {before:?} -> {:?}", phase(coord))); }
+        if coord.abort(id, "after wal fault").is_ok() { bad.push("WAL: COMMIT decided, but abort(tx) returned Ok".into()); }
+        coord.truncate_wal().map_err(|e| format!("harness: truncate_wal: {e}"))?;
+        if coord.abort(id, "after wal space was freed").is_ok() { bad.push("WAL: COMMIT decided, but abort(tx) returned Ok once the WAL accepted writes again".into()); }
+        let swept = coord.cleanup_timeouts();
+        let queued = coord.take_pending_aborts();
+        if swept.contains(&id) || queued.iter().any(|e| e.0 == id) { bad.push("WAL: COMMIT decided, but a later cleanup_timeouts() lists / queues the tx".into()); }
+        if before.is_some() && phase(coord) != before { bad.push(format!("WAL: COMMIT decided, live tx {before:?} -> {:?} by abort / cleanup", phase(coord))); }
+    } else if wal_abort {
+        if coord.commit(id).is_ok() { bad.push("WAL: ABORT decided, but commit(tx) returned Ok".into()); }
+        coord.truncate_wal().map_err(|e| format!("harness: truncate_wal: {e}"))?;
+        if coord.commit(id).is_ok() { bad.push("WAL: ABORT decided, but commit(tx) returned Ok once the WAL accepted writes again".into()); }
+        // the votes that were still outstanding arrive late (all Yes): the tx must not become committable any more
+        for sh in c.votes..c.nsh {
+            let mut emb = vec![0.0f32; c.nsh];
+            emb[sh] = 1.0;
+            let req = PrepareRequest { tx_id: id, coordinator: "coord".to_string(), operations: vec![Transaction::Put { key: format!("w{sh}"), data: vec![sh as u8] }],
+                                       delta_embedding: SparseVector::from_dense(&emb), timeout_ms: 0 };
+            let v = coord.handle_prepare(&req);
+            coord.truncate_wal().map_err(|e| format!("harness: truncate_wal: {e}"))?; // the budget is only a few records
+            let _ = coord.record_vote(id, sh, v);
+        }
+        coord.truncate_wal().map_err(|e| format!("harness: truncate_wal: {e}"))?;
+        if c.votes < c.nsh && coord.commit(id).is_ok() { bad.push("WAL: ABORT decided, but after the outstanding Yes votes arrived commit(tx) returned Ok".into()); }
+    }
+
+    // a restart from that WAL
+    let rec = TxRecoveryState::from_entries(&entries);
+    let in_list = |l: &[tensor_chain::RecoveredPreparedTx]| l.iter().any(|t| t.tx_id == id);
+    let (r_prep, r_com, r_abo) = (in_list(&rec.prepared_txs), in_list(&rec.committing_txs), in_list(&rec.aborting_txs));
+    if wal_commit && (r_prep || r_abo || (!r_com && !completed(TxOutcome::Committed))) {
+        bad.push(format!("WAL: COMMIT decided, TxRecoveryState has the tx in prepared={r_prep} committing={r_com} aborting={r_abo}"));
+    }
+    if wal_abort && !wal_commit && (r_prep || r_com || (!r_abo && !completed(TxOutcome::Aborted))) {
+        bad.push(format!("WAL: ABORT decided, TxRecoveryState has the tx in prepared={r_prep} committing={r_com} aborting={r_abo}"));
+    }
+    let copy2 = dir.join("tx_restart.wal");
+    std::fs::copy(&copy, &copy2).map_err(|e| format!("harness: copy WAL: {e}"))?;
+    let c2 = new_coord().with_wal(TxWal::open(&copy2).map_err(|e| format!("harness: open WAL copy: {e}"))?);
+    match c2.recover_from_wal() {
+        Err(e) => bad.push(format!("recover_from_wal on the WAL = Err({e})")),
+        Ok(_) => {
+            let ph = phase(&c2);
+            if wal_commit && !wal_abort {
+                let ok = ph == Some(TxPhase::Committing) || (ph.is_none() && completed(TxOutcome::Committed));
+                if !ok { bad.push(format!("WAL: COMMIT decided, after restart the tx is {ph:?}")); }
+                if c2.abort(id, "after restart").is_ok() { bad.push("WAL: COMMIT decided, after restart abort(tx) returned Ok".into()); }
+            }
+            if wal_abort && !wal_commit {
+                let ok = ph == Some(TxPhase::Aborting) || (ph.is_none() && completed(TxOutcome::Aborted));
+                if !ok { bad.push(format!("WAL: ABORT decided, after restart the tx is {ph:?}")); }
+                if c2.commit(id).is_ok() { bad.push("WAL: ABORT decided, after restart commit(tx) returned Ok".into()); }
+            }
+        },
+    }
+    let what = format!("{} returned {}; WAL records {} (of them {} by the final call), WAL decision: {}; live tx after the call: {before:?}",
+                       if c.commit { "commit" } else { "abort" }, run.ret_txt, run.ends.len(), run.ends.len() - run.pre,
+                       match (wal_commit, wal_abort) { (true, false) => "COMMIT", (false, true) => "ABORT", (false, false) => "none", _ => "BOTH" });
+    let verdict = if bad.is_empty() { Ok(what) } else { Err(format!("{what}; violated: {}", bad.join(" | "))) };
+    Ok((wal_commit || wal_abort, verdict))
+}
+
+fn run_wal(rep: &mut Report, tier: Tier) -> u64 {
+    let dir = crate::fw::tmpdir("c03_2pc");
+    let mut total = 0;
+    let shard_counts: &[usize] = if tier == Tier::Thorough { &[1, 2, 3, 4] } else { &[2, 3] };
+    for &nsh in shard_counts {
+        let mut scripts = vec![WalCase { nsh, votes: nsh, commit: true, k: 0 }];
+        for votes in 0..=nsh { scripts.push(WalCase { nsh, votes, commit: false, k: 0 }); }
+        for sc in scripts {
+            let n = match wal_final_appends(&dir, &sc) {
+                Ok(n) => n,
+                Err(e) => { rep.check(O_DURABLE, false, &|| sc.json(), &|| format!("harness: fault-free run failed: {e}")); continue; },
+            };
+            for k in 0..=n {
+                let c = WalCase { k, ..sc };
+                let r = wal_case(&dir, &c);
+                total += 1;
+                match r {
+                    Ok((nontrivial, verdict)) => { rep.eval(nontrivial); rep.check(O_DURABLE, verdict.is_ok(), &|| c.json(), &|| verdict.clone().err().unwrap_or_default()); },
+                    Err(e) => { rep.eval(false); rep.check(O_DURABLE, false, &|| c.json(), &|| e.clone()); },
+                }
+            }
+        }
+    }
+    let _ = std::fs::remove_dir_all(&dir);
+    total
+}
+
+// ------------------------------------------------------------------------------------------------
 
 fn configs(tier: Tier) -> Vec<(Cfg, usize)> {
-    let c = |ntx, nsh, overlap, committing| Cfg { ntx, nsh, overlap, committing };
+    let c = |ntx, nsh, overlap, committing| Cfg { ntx, nsh, overlap, committing, parts: 0 };
+    // strict participant subsets of 3 shards: the remaining shard is a stranger whose votes are in the alphabet
+    let p = |ntx, parts: u8, committing| Cfg { ntx, nsh: 3, overlap: false, committing, parts };
     if tier == Tier::Thorough {
         vec![(c(1, 2, false, false), 6), (c(1, 3, false, false), 5), (c(2, 2, false, false), 5), (c(2, 2, true, false), 5),
-             (c(2, 3, false, false), 4), (c(1, 2, false, true), 4), (c(1, 3, false, true), 4), (c(2, 2, false, true), 4)]
+             (c(2, 3, false, false), 4), (c(1, 2, false, true), 4), (c(1, 3, false, true), 4), (c(2, 2, false, true), 4),
+             (p(1, 0b011, false), 5), (p(1, 0b101, false), 5), (p(1, 0b110, false), 5), (p(1, 0b001, false), 5), (p(2, 0b011, false), 4),
+             (p(1, 0b011, true), 4)]
     } else {
         vec![(c(1, 2, false, false), 5), (c(1, 3, false, false), 5), (c(2, 2, false, false), 4), (c(2, 2, true, false), 4),
-             (c(1, 2, false, true), 3), (c(1, 3, false, true), 3), (c(2, 2, false, true), 3)]
+             (c(1, 2, false, true), 3), (c(1, 3, false, true), 3), (c(2, 2, false, true), 3),
+             (p(1, 0b011, false), 5), (p(1, 0b101, false), 4), (p(1, 0b001, false), 4), (p(2, 0b011, false), 3), (p(1, 0b011, true), 3)]
     }
+}
+
+fn shards_txt(c: &Cfg) -> String {
+    if c.parts == 0 { c.nsh.to_string() } else { format!("{} of {{{}}}", c.nsh, c.parts_vec().iter().map(ToString::to_string).collect::<Vec<_>>().join(",")) }
 }
 
 pub fn run(tier: Tier, _seed: u64) -> Report {
     let cfgs = configs(tier);
     let plen = if tier == Tier::Thorough { 6 } else { 5 };
     let dom = format!(
-        "coordinator: every call sequence from begin (last call contract-checked) over {{vote(tx,shard,Yes|No|Conflict) incl. duplicate/late votes, commit, abort, cleanup_timeouts (timeout 0, all expired)}} for (tx,shards,maxlen) = {}; Committing pre-states (built with recover()) with the same alphabet + complete_commit/complete_abort for {}; participant: 5x5 operation lists for 2 tx, every sequence of length <= {plen} over {{prepare,commit,abort}}x2 on a store {{k0}}",
-        cfgs.iter().filter(|(c, _)| !c.committing).map(|(c, l)| format!("({},{}{},<={l})", c.ntx, c.nsh, if c.overlap { ",shared key" } else { "" })).collect::<Vec<_>>().join(" "),
-        cfgs.iter().filter(|(c, _)| c.committing).map(|(c, l)| format!("({},{},<={l})", c.ntx, c.nsh)).collect::<Vec<_>>().join(" "));
+        "coordinator: every call sequence from begin (last call contract-checked) over {{vote(tx,shard,Yes|No|Conflict) incl. duplicate/late votes, commit, abort, cleanup_timeouts (timeout 0, all expired)}} for (tx,shards,maxlen) = {}; Committing pre-states (built with recover()) with the same alphabet + complete_commit/complete_abort for {}; participant: 5x5 operation lists for 2 tx, every sequence of length <= {plen} over {{prepare,commit,abort}}x2 on a store {{k0}}; WAL faults: real TxWal with a byte budget (auto_rotate off), script begin / v Yes votes / commit (v = all) or abort (v = 0..all) over {} shards, the k-th append of the final call and all later ones fail, for EVERY k (and k = 0: no fault); participants written '3 of {{0,1}}' are a strict subset of the shards, the other shard's votes are in the alphabet",
+        cfgs.iter().filter(|(c, _)| !c.committing).map(|(c, l)| format!("({},{}{},<={l})", c.ntx, shards_txt(c), if c.overlap { ",shared key" } else { "" })).collect::<Vec<_>>().join(" "),
+        cfgs.iter().filter(|(c, _)| c.committing).map(|(c, l)| format!("({},{},<={l})", c.ntx, shards_txt(c))).collect::<Vec<_>>().join(" "),
+        if tier == Tier::Thorough { "1-4" } else { "2-3" });
     let mut rep = Report::new("c03_2pc", &dom, true,
         &["DistributedTxCoordinator::begin", "handle_prepare", "record_vote", "commit", "abort", "cleanup_timeouts", "take_pending_aborts",
-          "complete_commit", "complete_abort", "recover", "TxParticipant::prepare", "TxParticipant::commit", "TxParticipant::abort"]);
+          "complete_commit", "complete_abort", "recover", "with_wal", "recover_from_wal", "truncate_wal", "TxWal::open_with_config", "TxWal::replay",
+          "TxRecoveryState::from_entries", "TxParticipant::prepare", "TxParticipant::commit", "TxParticipant::abort"]);
     rep.declare(O_VOTE, "DistributedTxCoordinator::record_vote");
     rep.declare(O_COMMIT, "DistributedTxCoordinator::commit");
     rep.declare(O_ONCE, "DistributedTxCoordinator::abort / cleanup_timeouts");
     rep.declare(O_TIMEOUT, "DistributedTxCoordinator::cleanup_timeouts / take_pending_aborts");
     rep.declare(O_PART, "TxParticipant::{prepare,commit,abort}");
+    rep.declare(O_DURABLE, "DistributedTxCoordinator::{commit,abort} on a TxWal whose k-th append fails; then abort / commit / cleanup_timeouts / take_pending_aborts / recover_from_wal");
     for (cfg, maxlen) in &cfgs { run_coord(&mut rep, cfg, *maxlen); }
     run_part(&mut rep, plen);
-    let c = Cfg { ntx: 1, nsh: 2, overlap: false, committing: false };
+    run_wal(&mut rep, tier);
+    let c = Cfg { ntx: 1, nsh: 2, overlap: false, committing: false, parts: 0 };
+    rep.sample(Cfg { nsh: 3, parts: 0b011, ..c }.json(&[Act::Vote(0, 2, V::Yes), Act::Vote(0, 0, V::Yes), Act::Commit(0)]));
     rep.sample(c.json(&[Act::Vote(0, 0, V::Yes), Act::Vote(0, 1, V::Yes), Act::Commit(0), Act::Abort(0)]));
     rep.sample(c.json(&[Act::Vote(0, 0, V::Yes), Act::Vote(0, 1, V::No), Act::Sweep]));
     rep.sample(Cfg { committing: true, ..c }.json(&[Act::Sweep, Act::Abort(0), Act::Complete(0)]));
+    rep.sample(WalCase { nsh: 2, votes: 2, commit: true, k: 2 }.json());
     rep.sample(part_json([0, 3], &[PAct::Prepare(0), PAct::Prepare(1), PAct::Abort(0), PAct::Prepare(1), PAct::Commit(1)]));
     rep
 }
 
 pub fn replay(ob: &str, case: &Value) -> Result<String, String> {
     let strs = |v: &Value| -> Vec<String> { v.as_array().map(|a| a.iter().filter_map(|x| x.as_str().map(str::to_string)).collect()).unwrap_or_default() };
+    if case["dom"] == "wal" {
+        let c = WalCase { nsh: case["nsh"].as_u64().unwrap_or(2) as usize, votes: case["votes"].as_u64().unwrap_or(0) as usize,
+                          commit: case["final"] == "commit", k: case["k"].as_u64().unwrap_or(0) as usize };
+        if c.nsh == 0 || c.nsh > 16 || c.votes > c.nsh || (c.commit && c.votes != c.nsh) { return Err("malformed case".into()); }
+        if ob != O_DURABLE { return Ok(format!("this case does not exercise {ob}")); }
+        let dir = crate::fw::tmpdir("c03_2pc_replay");
+        let r = wal_case(&dir, &c);
+        let _ = std::fs::remove_dir_all(&dir);
+        return r?.1;
+    }
     let (checks, _) = if case["dom"] == "part" {
         let m: Vec<usize> = case["menus"].as_array().ok_or("menus")?.iter().map(|x| x.as_u64().unwrap_or(0) as usize).collect();
         let seq: Vec<PAct> = strs(&case["seq"]).iter().map(|s| PAct::dec(s).ok_or(format!("bad action {s}"))).collect::<Result<_, _>>()?;
@@ -659,7 +957,9 @@ pub fn replay(ob: &str, case: &Value) -> Result<String, String> {
         exec_part(&TensorStore::new(), [m[0], m[1]], &seq)
     } else {
         let cfg = Cfg { ntx: case["ntx"].as_u64().unwrap_or(1) as usize, nsh: case["nsh"].as_u64().unwrap_or(2) as usize,
-                        overlap: case["overlap"].as_bool().unwrap_or(false), committing: case["pre"] == "committing" };
+                        overlap: case["overlap"].as_bool().unwrap_or(false), committing: case["pre"] == "committing",
+                        parts: case["parts"].as_array().map_or(0, |a| a.iter().filter_map(Value::as_u64).filter(|s| *s < 8).fold(0u8, |m, s| m | (1 << s))) };
+        if cfg.nsh > 8 || cfg.nsh == 0 || cfg.parts_vec().is_empty() { return Err("malformed case: shards / participants".into()); }
         let seq: Vec<Act> = strs(&case["seq"]).iter().map(|s| Act::dec(s).ok_or(format!("bad action {s}"))).collect::<Result<_, _>>()?;
         if seq.is_empty() { return Err("empty sequence".into()); }
         exec_coord(build(&cfg), &cfg, &seq)
